@@ -41,7 +41,6 @@ FORM = "antismash/common/secmet/features/candidate_cluster/formation.py"
 
 # ids under which the recorded defects of other properties are listed for C07 (known_findings.json)
 KF_SUPERIOR = "KF-C07-superior-overlap"          # = KF-C03-superior-overlap seen through two runs
-KF_FORMATION = "KF-C07-pending-formation"        # = pending:formation (C05's file)
 
 _CAPTURE: Dict[str, Any] = {}
 _PATCHED: Dict[str, Any] = {}
@@ -136,8 +135,7 @@ class C07(Property):
                "touching pieces re-joined) stands for 'choosing a different origin'; C04's offset theorems say the same about offset_location",
                "HMMER hit production is not exercised: hits come from dynamic profiles (same hits for every rotation by gene name)",
                "two pass-through wrappers (find_protoclusters, remove_redundant_protoclusters) record arguments/results of the real functions",
-               "candidate formation (formation.py, C05) is compared between runs but not modelled; its rotation / order differences are "
-               "reported under the pending-formation id",
+               "candidate formation (formation.py, C05) is compared between runs, not modelled here (C05 owns its model)",
                "get_ruleset's option handling is exercised by C17, not here: rulesets are built directly (Ruleset(...))",
                "C03's Lean model is run with the *specification* of get_cds_features_within_location (C08); the real lookup runs in the pipeline"]
 
@@ -577,27 +575,32 @@ class C07(Property):
 
     def explain_removed(self, a: Dict[str, Any], b: Dict[str, Any], rule_names: List[str],
                         absent_rules: List[str], sup_of: Dict[str, List[str]]) -> Tuple[bool, bool, str]:
-        """final protoclusters of the rules differ between runs a and b although the protoclusters before the
-           superiors step agree.  Returns (explained by removals, some removal was undocumented, text)"""
+        """the final protoclusters of some rules differ between runs a and b.  They are *explained by the
+           superiors step* when, rule by rule, both runs had the same protoclusters before that step (same core
+           genes) and removed different ones — the kept ones may then also have been merged differently.
+           Returns (explained, some differing removal was not covered by a superior core, text)"""
         undocumented = False
         notes = []
         for rule in rule_names:
-            pa = {tuple(p[1]) for p in self.protos_of(a, rule)}
-            pb = {tuple(p[1]) for p in self.protos_of(b, rule)}
-            if pa == pb:
+            if self.protos_of(a, rule) == self.protos_of(b, rule):
                 continue
-            for present, absent, run_abs, tag in ((pa - pb, pb, b, "second"), (pb - pa, pa, a, "first")):
-                for core in present:
-                    why = [r for r in run_abs["removed"] if r[0] == rule and set(r[1]) & set(core)]
-                    if not why:
-                        return False, undocumented, (f"{rule}: protocluster with core genes {list(core)} missing from the {tag} run, "
-                                                     f"and no protocluster removed by superiors there shares a core gene with it")
-                    for r in why:
-                        if not r[2]:
-                            undocumented = True
-                            notes.append(f"{rule}: {r[1]} dropped in one run although no superior core covers its core")
-                        else:
-                            notes.append(f"{rule}: {r[1]} dropped, covered by a superior")
+            ext_a = sorted(e[1] for e in a["ext"] if e[0] == rule)
+            ext_b = sorted(e[1] for e in b["ext"] if e[0] == rule)
+            if ext_a != ext_b:
+                return False, undocumented, (f"{rule}: the protoclusters differ already before the superiors step: "
+                                             f"{ext_a} vs {ext_b}")
+            rem_a = {tuple(r[1]): r[2] for r in a["removed"] if r[0] == rule}
+            rem_b = {tuple(r[1]): r[2] for r in b["removed"] if r[0] == rule}
+            differing = {k: v for k, v in rem_a.items() if k not in rem_b}
+            differing.update({k: v for k, v in rem_b.items() if k not in rem_a})
+            if not differing:
+                return False, undocumented, f"{rule}: same protoclusters before the superiors step, same ones removed, different result"
+            for genes, covered in sorted(differing.items()):
+                if not covered:
+                    undocumented = True
+                    notes.append(f"{rule}: {list(genes)} dropped in one run only, although no superior core covers its core")
+                else:
+                    notes.append(f"{rule}: {list(genes)} dropped in one run only, covered by a superior")
         return True, undocumented, "; ".join(notes[:3])
 
     def judge(self, case: Dict[str, Any], obs: Dict[str, Any], drv: Optional[Dict[str, Any]]) -> Judgement:
@@ -693,7 +696,7 @@ class C07(Property):
                         failures.append((None, f"{label} protoclusters differ: base {self.protos_of(base)} vs rotated {self.protos_of(run)}; {text}; {t2}"))
                     continue
                 if run["cands"] != base["cands"]:
-                    failures.append((KF_FORMATION, f"{label} same protoclusters, candidate clusters differ: base {base['cands']} vs rotated {run['cands']}"))
+                    failures.append((None, f"{label} same protoclusters, candidate clusters differ: base {base['cands']} vs rotated {run['cands']}"))
                     continue
                 if run["regions"] != base["regions"]:
                     bad = [lab for lab, dd in (("base", dbase), ("rotated", d))
@@ -726,7 +729,8 @@ class C07(Property):
                 if self.protos_of(run) != b_protos:
                     absent = [n for n in names if n not in vnames]
                     ok, undoc, text = self.explain_removed(base, run, vnames, absent, sup_of)
-                    lost_superior = any(s in absent for n in vnames for s in sup_of[n])
+                    differing = [n for n in vnames if self.protos_of(base, n) != self.protos_of(run, n)]
+                    lost_superior = all(any(s in absent for s in sup_of[n]) for n in differing)
                     if ok and undoc:
                         failures.append((KF_SUPERIOR, f"{label} protoclusters depend on the ruleset beyond the documented removal: base {b_protos} vs variant {self.protos_of(run)}; {text}"))
                     elif ok and lost_superior:
